@@ -65,6 +65,8 @@ pub struct Slot {
     pub born_event: usize,
     /// Encryption policy (AST) and version of the structure it was evaluated in.
     pub pol: Option<(crate::model::Pol, u64)>,
+    /// Version of the MPK it was made under.
+    pub mpk_version: u64,
 }
 
 pub enum Msg {
@@ -130,6 +132,8 @@ pub struct World {
     /// Incremented by every structure edit, rekey, prune and restore: two objects made in the
     /// same epoch can be compared with the name-level cover relation.
     pub epoch: u64,
+    /// Epoch and MPK version at the last successful update.
+    pub last_update: (u64, u64),
 }
 
 /// Interns a dynamically built counter name (bounded set of names).
@@ -207,6 +211,7 @@ impl World {
             cleartexts: vec![],
             disabled_ids: BTreeSet::new(),
             epoch: 0,
+            last_update: (u64::MAX, 0),
         })
     }
 
@@ -667,6 +672,9 @@ impl World {
                             self.auth.m = m2;
                             self.check_msk_shape(op);
                             self.install_mpk(mpk, op);
+                            if op == "update" {
+                                self.last_update = (self.epoch, self.auth.mpk_version);
+                            }
                         }
                     }
                 }
